@@ -35,11 +35,7 @@ func verifNames(t FunctionTable) []string {
 	for k := range t {
 		names = append(names, k)
 	}
-	for i := 1; i < len(names); i++ {
-		for j := i; j > 0 && names[j] < names[j-1]; j-- {
-			names[j], names[j-1] = names[j-1], names[j]
-		}
-	}
+	verifrt.SortStrings(names)
 	return names
 }
 
